@@ -27,7 +27,7 @@ Spellings == {
   Spell("dquote-q",     "a\"b",    "\"a\"\"b\"",  "\"a\"\"b\"",  TRUE),
   Spell("digit-q",      "1abc",    DQ("1abc"),    DQ("1abc"),    TRUE),
   Spell("dash-q",       "a-b",     DQ("a-b"),     DQ("a-b"),     TRUE),
-  Spell("empty-dot-q",  "a.b",     DQ("a.b"),     DQ("a.b"),     TRUE),
+  Spell("dot-q",        "a.b",     DQ("a.b"),     DQ("a.b"),     TRUE),
   Spell("kw-order-q",   "order",   DQ("order"),   DQ("order"),   TRUE),
   Spell("kw-select-q",  "select",  DQ("select"),  DQ("select"),  TRUE),
   Spell("kw-from-q",    "from",    DQ("from"),    DQ("from"),    TRUE),
@@ -178,6 +178,7 @@ Denote(d, quoted, text) == IF d = "pg" THEN (IF quoted THEN text ELSE Lower(text
 (* character access): letters, digits and underscore, not starting with a digit *)
 BareNames == {"col1", "MixCol", "UPCOL", "_c_1", "order", "select", "from", "primary", "not", "Table", "key",
               "nocase", "NOCASE", "NoCase", "abs", "ABS", "Abs", "integer", "INTEGER", "Integer", "main", "MAIN", "Main"}
+LexBare == BareNames \cup {"a$b"}      \* spellings the lexer reads as one word when written bare
 (* words the reader gives a role to somewhere, and words SQLite reserves     *)
 ReaderWords    == {"order", "select", "from", "primary", "not", "table", "key"}
 SqliteReserved == {"order", "select", "from", "primary", "not", "table"}
